@@ -1956,7 +1956,7 @@ func (c *Ctx) r0149(pk *packages.Package) {
 // R01.50: a lone lexical declaration is dropped with its block only when it binds plain names.
 func (c *Ctx) r0150(pk *packages.Package) {
 	const rule = "R01.50"
-	c.R.Rule(rule, "optimizeStmt removes a block whose only statement is a let/const declaration and keeps the initialisers that have side effects. A destructuring declaration does more than evaluate its initialiser: `{let {a}=b}` throws for a null b and runs getters, `{let [a]=b}` runs b's iterator. In the branch that builds the replacement from the declaration's items (it reads their Default), the items' Binding is asserted to *js.Var")
+	c.R.Rule(rule, "optimizeStmt removes a block whose only statement is a let/const declaration and keeps the initialisers that have side effects. A destructuring declaration does more than evaluate its initialiser: `{let {a}=b}` throws for a null b and runs getters, `{let [a]=b}` runs b's iterator. In the branch that builds the replacement from the declaration's items (it reads their Default), the items' Binding is asserted to *js.Var, and the variable's Uses count is consulted (a closure inside an initialiser can refer to the variable: `{let h=reg(()=>log(h))}`)")
 	fd := c.fn(rule, pk, "optimizeStmt")
 	if fd == nil {
 		return
@@ -1990,7 +1990,153 @@ func (c *Ctx) r0150(pk *packages.Package) {
 		})
 		c.R.Check(asserts, rule, fmt.Sprintf("js.optimizeStmt/lone declaration#%d replaced by its initialisers only for plain names", n), c.pos(rs), "the items' Binding is asserted to *js.Var",
 			"a lone let/const declaration is replaced by its initialisers whatever it binds: `{let {a}=b}` becomes `b` — no TypeError for a null b, no getter is run")
+		// … and only when nothing uses the variable: a closure in an initializer may
+		usesChecked := false
+		ast.Inspect(rs.Body, func(z ast.Node) bool {
+			if sel, ok := z.(*ast.SelectorExpr); ok && sel.Sel.Name == "Uses" {
+				usesChecked = true
+			}
+			return true
+		})
+		c.R.Check(usesChecked, rule, fmt.Sprintf("js.optimizeStmt/lone declaration#%d replaced by its initialisers only when the variable is unused", n), c.pos(rs), "the variable's Uses count is consulted",
+			"a lone let/const declaration is dropped without a look at the uses of its variable: `{let h=reg(()=>log(h))}` becomes `reg(()=>log(h))`, whose h is a global")
 		return true
 	})
 	c.R.Floor(rule, "replacements of a lone declaration", n, 1)
+}
+
+// R01.51 (= R02.15): whether a name is a global is asked of the variable a use is linked to.
+func (c *Ctx) r0151(pk *packages.Package, rule string) {
+	c.R.Rule(rule, "the parser gives a use of an outer function's variable inside an inner function its own *js.Var (Decl = NoDecl) and links it to the declared variable (Var.Link). Rewrites that are only valid for the builtins — isNaN(x) → x!=x, Math.abs, Number(…), `undefined` — test `Decl == js.NoDecl`; on the unresolved use that test also holds for `function f(isNaN){return function(){return isNaN(x)}}`, whose isNaN is the parameter. Every comparison of a Var's Decl with js.NoDecl in package js is made on a resolved variable: the operand is the result of a function of the package that follows the links, or a loop `for v.Link != nil` over the same variable precedes the comparison")
+	info := pk.TypesInfo
+	follows := func(d *ast.FuncDecl) bool {
+		if d == nil || d.Body == nil {
+			return false
+		}
+		hit := false
+		ast.Inspect(d.Body, func(z ast.Node) bool {
+			if fs, ok := z.(*ast.ForStmt); ok && fs.Cond != nil && strings.Contains(nospace(str(fs.Cond)), ".Link!=nil") {
+				hit = true
+			}
+			return !hit
+		})
+		return hit
+	}
+	n := 0
+	for _, fd := range load.FuncDecls(pk) {
+		if fd.Body == nil {
+			continue
+		}
+		// loops that resolve a variable in place
+		type loop struct {
+			obj types.Object
+			pos token.Pos
+		}
+		var loops []loop
+		ast.Inspect(fd.Body, func(z ast.Node) bool {
+			if fs, ok := z.(*ast.ForStmt); ok && fs.Cond != nil {
+				if be, ok := ast.Unparen(fs.Cond).(*ast.BinaryExpr); ok && be.Op == token.NEQ {
+					if sel, ok := ast.Unparen(be.X).(*ast.SelectorExpr); ok && sel.Sel.Name == "Link" {
+						if id, ok := ast.Unparen(sel.X).(*ast.Ident); ok {
+							loops = append(loops, loop{info.Uses[id], fs.Pos()})
+						}
+					}
+				}
+			}
+			return true
+		})
+		ast.Inspect(fd.Body, func(z ast.Node) bool {
+			be, ok := z.(*ast.BinaryExpr)
+			if !ok || (be.Op != token.EQL && be.Op != token.NEQ) {
+				return true
+			}
+			for _, pair := range [][2]ast.Expr{{be.X, be.Y}, {be.Y, be.X}} {
+				sel, ok := ast.Unparen(pair[0]).(*ast.SelectorExpr)
+				if !ok || sel.Sel.Name != "Decl" {
+					continue
+				}
+				k, ok := ast.Unparen(pair[1]).(*ast.SelectorExpr)
+				if !ok || k.Sel.Name != "NoDecl" {
+					continue
+				}
+				n++
+				good := false
+				switch x := ast.Unparen(sel.X).(type) {
+				case *ast.CallExpr:
+					if _, d := c.calleeDecl(info, x); follows(d) {
+						good = true
+					}
+				case *ast.Ident:
+					for _, l := range loops {
+						if l.obj == info.Uses[x] && l.pos < be.Pos() {
+							good = true
+						}
+					}
+					if d := c.singleDef(pk, x); d != nil {
+						if ce, ok := ast.Unparen(d).(*ast.CallExpr); ok {
+							if _, dd := c.calleeDecl(info, ce); follows(dd) {
+								good = true
+							}
+						}
+					}
+				}
+				c.R.Check(good, rule, fmt.Sprintf("js.%s/declaration test#%d on the linked variable", load.FuncName(fd), n), c.pos(be), "the links are followed first",
+					"`"+str(be)+"` is asked of the variable as it stands at the use: a use inside an inner function of a variable the outer function declares has Decl NoDecl and a Link — `function f(isNaN){return function(){return isNaN(x)}}` is printed as `…return x!=x`")
+			}
+			return true
+		})
+	}
+	c.R.Floor(rule, "comparisons of a declaration type with NoDecl", n, 6)
+}
+
+// R01.53: the initialiser of a var declaration is not discarded.
+func (c *Ctx) r0153(pk *packages.Package) {
+	const rule = "R01.53"
+	c.R.Rule(rule, "`var a=undefined` is an assignment that runs every time control reaches it — in the second iteration of a loop, or where a is a parameter, it resets a value; `let a=undefined` is `let a`. No assignment in package js clears the Default of a binding element (`X.Default = nil`) unless it is dominated by a test that the declaration is a let declaration (a comparison of a TokenType with js.LetToken)")
+	info := pk.TypesInfo
+	n, bad := 0, 0
+	for _, fd := range load.FuncDecls(pk) {
+		if fd.Body == nil {
+			continue
+		}
+		var g *flow.Graph
+		ast.Inspect(fd.Body, func(z ast.Node) bool {
+			as, ok := z.(*ast.AssignStmt)
+			if !ok || len(as.Lhs) != len(as.Rhs) {
+				return true
+			}
+			for i, l := range as.Lhs {
+				sel, ok := l.(*ast.SelectorExpr)
+				if !ok || sel.Sel.Name != "Default" || !isNilExpr(as.Rhs[i]) {
+					continue
+				}
+				if t := info.TypeOf(sel.X); t == nil || !strings.HasSuffix(derefType(t).String(), "js.BindingElement") {
+					continue
+				}
+				n++
+				if g == nil {
+					g = c.graph(pk, fd)
+				}
+				good := false
+				if y := g.NodeOf(as); y != nil {
+					for _, f := range g.DomFacts(y) {
+						if f.Test.Kind != flow.KCond {
+							continue
+						}
+						s := nospace(str(f.Test.Expr))
+						if strings.Contains(s, "TokenType==js.LetToken") && f.Value || strings.Contains(s, "TokenType!=js.LetToken") && !f.Value {
+							good = true
+						}
+					}
+				}
+				if !good {
+					bad++
+				}
+				c.R.Check(good, rule, fmt.Sprintf("js.%s/initialiser discarded#%d only from a let declaration", load.FuncName(fd), n), c.pos(as), "behind TokenType == js.LetToken",
+					"the initialiser of a binding is discarded without a test that the declaration is a let: `for(…){var a=undefined;…;a=i}` prints `var a`, and a keeps the value of the previous iteration")
+			}
+			return true
+		})
+	}
+	c.R.Exists(rule, "js/assignments that discard an initialiser", "-", fmt.Sprintf("%d found, %d of them outside a let declaration", n, bad))
 }
